@@ -25,7 +25,7 @@ ASSUMPTIONS = [
     "compressed round trip is byte-identical under CaseConsistent (no table entry equal to a suffix only up to ASCII case); equal up to case otherwise (RFC 1035/4343 reading, DESIGN §6)",
 ]
 
-OCTET_POOL = [0x00, 0x01, 0x1F, 0x20, 0x21, 0x22, 0x24, 0x28, 0x29, 0x2E, 0x30, 0x31, 0x39, 0x3B, 0x40, 0x41, 0x5A, 0x5B,
+OCTET_POOL = [0x00, 0x01, 0x09, 0x0A, 0x0D, 0x1F, 0x20, 0x21, 0x22, 0x24, 0x28, 0x29, 0x2E, 0x30, 0x31, 0x39, 0x3B, 0x40, 0x41, 0x5A, 0x5B,
               0x5C, 0x60, 0x61, 0x7A, 0x7B, 0x7E, 0x7F, 0x80, 0xFE, 0xFF]
 LETTERS = [0x61, 0x62, 0x41, 0x42, 0x63]
 LEN_POOL = [1, 1, 1, 2, 2, 3, 5, 8, 31, 62, 63]
@@ -33,7 +33,13 @@ LEN_POOL = [1, 1, 1, 2, 2, 3, 5, 8, 31, 62, 63]
 
 def gen_label(rng, maxlen=63):
     n = min(rng.choice(LEN_POOL), maxlen)
-    mode = rng.below(4)
+    mode = rng.below(5)
+    if mode == 4:
+        # plain letters/digits/hyphen/underscore with ONE control or white-space octet at the end or the start (what a
+        # regex `$`, str.strip() or isalnum() shortcut gets wrong)
+        body = rng.bytes(max(1, n - 1), [0x61, 0x7A, 0x41, 0x30, 0x39, 0x2D, 0x5F])
+        odd = bytes([rng.choice([0x0A, 0x0A, 0x0D, 0x09, 0x20, 0x00, 0x7F, 0x0B, 0x0C, 0x85 & 0xFF])])
+        return (body + odd if rng.chance(3, 4) else odd + body)[:maxlen]
     if mode == 0:
         return rng.bytes(n, LETTERS)
     if mode == 1:
@@ -156,6 +162,9 @@ def eval_case(ctx: Ctx, c: dict):
             ctx.fail("C01/to_text/raises", f"to_text raised on {labels!r}: {t}", rep)
             return
         text = n.to_text()
+        # master-file text of a name is printable ASCII only: every control, white-space and high octet is escaped
+        if any(not (0x21 <= ord(ch) <= 0x7E) for ch in text):
+            ctx.fail("C01/to_text/raw-unprintable-octet", f"to_text of {labels!r} contains an unescaped control/space/high character: {text!r}", rep)
         o = None if origin is None else dns.name.Name(origin)
         r, v = outcome(lambda: dns.name.from_text(text, o), lambda x: enc_labels(x.labels))
         ctx.corr(f"n.fromtext {hx(text.encode('ascii'))} {'none' if origin is None else enc_labels(origin)}", r, c)
